@@ -46,6 +46,9 @@ CHECKS = {
  "C14": ("bitreader", "explicit-state breadth-first search to fixpoint over the real H263Reader (state = bytes pulled, buffer length, bit offset) for every short source, each transition compared with a bit-vector model; plus exhaustive one-step value sweep",
          "For every source of up to 4 (thorough 5) bytes over a byte alphabet chosen for start codes/stuffing/mixed bits, delivered whole or split, the complete reachable state graph of the reader under ~670 operations per state (peeks, reads, signed reads, skips, start-code search, commits, VLC/UMV reads, successful/failed/nested transactions, unions, look-aheads, source growth) is explored; every returned value/error is compared with the model and a drain probe at every new state checks that each remaining bit is delivered exactly once in order. All 65536 two-byte sources x offsets x widths 0..33 x types cover data values.",
          "State key read through the cfg-gated hook (destructures the struct, so it is the reader's whole state); operation alphabet and source alphabet are bounds; commit inside a failing transaction and zero-width signed reads are outside the documented contract and not generated.", "3.14"),
+ "C17": ("determinism", "exhaustive enumeration of all call-level interleavings (multiset permutations) of several decoder instances under an explicit scheduler, in two thread placements, against each instance's solo run",
+         "Every interleaving of the calls of every pair of six instance scripts (and of triples: all multisets in the thorough tier, a covering subset in quick) is executed on one thread and with one OS thread per instance under token passing; every instance's sequence of (Ok/Err, picture+header hash) must equal its solo sequential run. First-initialisation order of the lazily initialised constants is varied in fresh child processes. Hash-seed dependence (16 fresh instances) and free-running threads are sampled and labelled as sampling.",
+         "Interleavings are exhaustive at call granularity: the crates contain no lock, atomic, channel, unsafe or static mut (inventory recorded in the evidence; a note is printed if that changes), so there is no scheduling point inside a call for loom/shuttle to control.", "3.17"),
  "C16": ("deblock", "bounded-exhaustive shape sweep (all widths x heights x strengths up to a bound) + literal table comparison",
          "Every width 1..64 x height 0..64 (thorough 128) x strength 1..12 x 2 contents is run under catch_unwind with overflow checks: no panic, length preserved, equal to the model (which has no edge when fewer than 10 rows/columns). The 31 table entries are compared with the literal Table J.2.",
          "Sizes beyond the bound are not enumerated; the loop bounds depend on size only through comparisons against small constants, all of which lie inside the bound.", "3.16"),
